@@ -485,7 +485,8 @@ class MRGModel:
         """candidate term when comb_term is prior_combinations_sample(<candidates>, args) (default counter), else None"""
         from ..terms import unify
         args = self.fn.params[1]
-        for src in (f'{CR}.prior_combinations_sample(K, {args})',):
+        # (the default counter may be passed explicitly: None selects it, and GLOBAL_PRIOR_COMB_COUNTS is it)
+        for src in (f'{CR}.prior_combinations_sample(K, {args})', f'{CR}.prior_combinations_sample(K, {args}, GLOBAL_PRIOR_COMB_COUNTS)', f'{CR}.prior_combinations_sample(K, {args}, None)'):
             b = unify(self.pat(src, ['K']), comb_term)
             if b is not None:
                 return b['K']
@@ -986,16 +987,25 @@ def column_overwrites(fn):
     return out
 
 
-def param_deps(fn, expr, stop=()):
+def param_deps(fn, expr, stop=(), control=False):
     """parameters of `fn` the expression can depend on, through the local bindings of the function (every binding of a name counts;
-    helper expansion has already placed extracted helpers in the body)"""
+    helper expansion has already placed extracted helpers in the body).  control=True: a binding made under a test also depends on that test"""
     binds = {}
+    par = parents(fn.node) if control else {}
     for n in own_nodes(fn.node):
         if isinstance(n, ast.Assign):
+            extra = []
+            if control:
+                g = par.get(n)
+                while g is not None and g is not fn.node:
+                    if isinstance(g, (ast.If, ast.While)):
+                        extra.append(g.test)
+                    g = par.get(g)
             for t in n.targets:
                 for x in ast.walk(t):
                     if isinstance(x, ast.Name):
                         binds.setdefault(x.id, []).append(n.value)
+                        binds[x.id] += extra
         elif isinstance(n, (ast.AugAssign, ast.AnnAssign)) and isinstance(n.target, ast.Name) and n.value is not None:
             binds.setdefault(n.target.id, []).append(n.value)
         elif isinstance(n, (ast.For, ast.comprehension)):
